@@ -392,6 +392,44 @@ theorem C04_qualifier_lookup_iff_reach (s : Schema) (name en : String) :
     isAncestor s name (s.decls.length + 1) en = true ↔ Reach (superGraph s) en name :=
   isAncestor_iff_reach s name en
 
+/-- **attribute redeclarations, stated through reachability**: `ENTITYresolve_expressions` reports no REDECL_… ERROR for `e` ⇔ every
+    `SELF\sup.a : …` names a `sup` that is not `e` itself, is reachable from `e` through one or more `SUBTYPE OF` edges, and declares `a` -/
+theorem C04_redeclaration_reach_iff (path : String) (s : Schema) (e : Entity) :
+    hasError (redeclDiags path s (s.decls.length + 1) e) = false ↔
+      ∀ a ∈ e.attrs, ∀ sup, a.redeclOf = some sup →
+        (sup ≠ e.name ∧ Reach (superGraph s) e.name sup) ∧
+        (∀ se, findEntity s sup = some se → se.attrs.any (·.name = a.name) = true) := by
+  rw [redecl_noError_iff]
+  unfold RedeclWF
+  simp only [isAncestor_iff_reach]
+
+/-- **UNIQUE references on a schema without supertype cycles below `e`, stated through reachability**: no ERROR ⇔ the attribute is
+    declared by `e` or an entity reachable from it, and — for `SELF\q.a` — `q` is reachable from `e` and (when it is an entity of the
+    schema) declares `a` itself -/
+theorem C04_unique_reach_iff (p : String) (s : Schema) (e : Entity) (u : UniqueItem)
+    (hacyc : ¬ ∃ y, Reach (superGraph s) e.name y ∧ Reach (superGraph s) y y) :
+    hasError (uniqueDiags p s e (s.decls.length + 1) u) = false ↔
+      (match u.qual with
+       | none => True
+       | some q => Reach (superGraph s) e.name q ∧
+           (∀ qe, findEntity s q = some qe → qe.attrs.any (·.name = u.attr) = true)) ∧
+      ∃ x, ReachRefl (superGraph s) e.name x ∧ ownsAttr s u.attr x = true := by
+  rw [unique_noError_iff]
+  unfold UniqueWF
+  have hv := C04_attr_visible_iff_reach_acyclic s e u.attr hacyc
+  cases hq : u.qual with
+  | none => simp only [true_and]; exact hv
+  | some q =>
+    simp only [isAncestor_iff_reach]
+    cases hf : findEntity s q with
+    | none =>
+      simp only [reduceCtorEq, false_implies, implies_true, and_true]
+      rw [hv]
+    | some qe =>
+      simp only [Option.some.injEq, forall_eq']
+      rw [hv]
+      exact ⟨fun ⟨h1, h2, h3⟩ => ⟨⟨h1, h2⟩, h3⟩, fun ⟨⟨h1, h2⟩, h3⟩ => ⟨h1, h2, h3⟩⟩
+
 /-- **overloaded attribute, stated without the look-up function**: `ENTITYresolve_expressions` reports OVERLOADED_ATTR for `e` ⇔ some new
     (not redeclared) attribute of `e` has a second declaration in a direct supertype or in an entity reachable from one through
     `SUBTYPE OF` — two distinct reachable declarations of one name.  (The look-up is the marked search the code uses since C06-17; it
